@@ -1264,27 +1264,7 @@ impl IQLEngine {
             return (0..n).collect();
         }
 
-        // Build name->index map for rule heads
-        let head_to_idx: HashMap<&str, usize> = rule_heads
-            .iter()
-            .enumerate()
-            .map(|(i, name)| (name.as_str(), i))
-            .collect();
-
-        // Build dependency graph: deps[i] = set of indices that must execute before i
-        let mut deps: Vec<std::collections::HashSet<usize>> =
-            vec![std::collections::HashSet::new(); n];
-        for (i, ir) in self.ir_nodes.iter().enumerate() {
-            let mut scans = Vec::new();
-            Self::collect_scan_relations(ir, &mut scans);
-            for scan_name in &scans {
-                if let Some(&j) = head_to_idx.get(scan_name.as_str()) {
-                    if j != i {
-                        deps[i].insert(j);
-                    }
-                }
-            }
-        }
+        let deps = self.rule_dependency_sets(rule_heads);
 
         // Topological sort by in-degree reduction
         let mut in_degree: Vec<usize> = deps.iter().map(std::collections::HashSet::len).collect();
@@ -1341,6 +1321,56 @@ impl IQLEngine {
         }
 
         order
+    }
+
+    /// deps[i] = rule heads (by index, other than i itself) that node i reads
+    fn rule_dependency_sets(&self, rule_heads: &[String]) -> Vec<std::collections::HashSet<usize>> {
+        let n = self.ir_nodes.len();
+        // Build name->index map for rule heads
+        let head_to_idx: HashMap<&str, usize> = rule_heads
+            .iter()
+            .enumerate()
+            .map(|(i, name)| (name.as_str(), i))
+            .collect();
+
+        // Build dependency graph: deps[i] = set of indices that must execute before i
+        let mut deps: Vec<std::collections::HashSet<usize>> =
+            vec![std::collections::HashSet::new(); n];
+        for (i, ir) in self.ir_nodes.iter().enumerate() {
+            let mut scans = Vec::new();
+            Self::collect_scan_relations(ir, &mut scans);
+            for scan_name in &scans {
+                if let Some(&j) = head_to_idx.get(scan_name.as_str()) {
+                    if j != i {
+                        deps[i].insert(j);
+                    }
+                }
+            }
+        }
+        deps
+    }
+
+    /// True when two or more different heads depend on each other (mutual
+    /// recursion). Self-recursion alone is handled by the per-head fixpoint.
+    fn has_mutual_recursion(&self, rule_heads: &[String]) -> bool {
+        let deps = self.rule_dependency_sets(rule_heads);
+        let n = deps.len();
+        // Kahn: nodes that never reach in-degree 0 lie on (or behind) a cycle
+        let mut in_degree: Vec<usize> = deps.iter().map(std::collections::HashSet::len).collect();
+        let mut ready: Vec<usize> = (0..n).filter(|&i| in_degree[i] == 0).collect();
+        let mut done = 0;
+        while let Some(i) = ready.pop() {
+            done += 1;
+            for (k, dep_set) in deps.iter().enumerate() {
+                if dep_set.contains(&i) {
+                    in_degree[k] -= 1;
+                    if in_degree[k] == 0 {
+                        ready.push(k);
+                    }
+                }
+            }
+        }
+        done < n
     }
 
     fn collect_scan_relations(ir: &IRNode, scans: &mut Vec<String>) {
@@ -1647,63 +1677,94 @@ impl IQLEngine {
         let execution_order = self.topological_sort_ir_nodes(&rule_heads);
         let mut last_result: Vec<Tuple> = Vec::new();
         let final_node = execution_order.last().copied();
+        // Heads that depend on each other are not covered by the per-head
+        // fixpoint: one pass in execution order sees them incomplete. Repeat the
+        // pass (every node is recomputed from the current relations) until no
+        // relation changes; stratification makes the lower groups settle first.
+        let mutual_recursion = self.has_mutual_recursion(&rule_heads);
+        let mut passes: usize = 0;
 
-        for &i in &execution_order {
-            let head_name = rule_heads.get(i).cloned().unwrap_or_default();
+        loop {
+            let mut changed = false;
+            for &i in &execution_order {
+                let head_name = rule_heads.get(i).cloned().unwrap_or_default();
 
-            // Create fresh CodeGenerator for each rule (avoids timely state issues)
-            let mut codegen = CodeGenerator::new();
-            // The row limit truncates the returned answer only. Intermediate
-            // relations feed later rules and must stay complete: a truncated
-            // relation under negation or aggregation yields wrong rows.
-            if Some(i) == final_node {
-                codegen.set_max_result_rows(self.max_result_rows);
-            }
-            // Set per-rule semiring type from boolean specialization
-            let semiring = self
-                .semiring_annotations
-                .get(i)
-                .map_or(boolean_specialization::SemiringType::Counting, |a| {
-                    a.semiring
-                });
-            codegen.set_semiring_type(semiring);
-            self.load_inputs_into_codegen(&mut codegen, &accumulated_results);
-
-            let is_recursive = recursive_info.get(i).is_some_and(Option::is_some);
-
-            // Use unoptimized IR for recursive nodes, optimized for others
-            let (exec_result, rule_us) = collector.time(|| {
-                if let Some(Some(recursive_rel)) = recursive_info.get(i) {
-                    codegen.execute_recursive(&unoptimized_ir_nodes[i], recursive_rel)
-                } else if self.num_workers > 1 {
-                    // Use parallel execution when configured for multi-worker
-                    let config = code_generator::ExecutionConfig::with_workers(self.num_workers);
-                    codegen.execute_with_config(&self.ir_nodes[i], config)
-                } else {
-                    codegen.execute(&self.ir_nodes[i])
+                // Create fresh CodeGenerator for each rule (avoids timely state issues)
+                let mut codegen = CodeGenerator::new();
+                // The row limit truncates the returned answer only. Intermediate
+                // relations feed later rules and must stay complete: a truncated
+                // relation under negation or aggregation yields wrong rows.
+                if Some(i) == final_node {
+                    codegen.set_max_result_rows(self.max_result_rows);
                 }
-            });
-            let result = exec_result?;
+                // Set per-rule semiring type from boolean specialization
+                let semiring = self
+                    .semiring_annotations
+                    .get(i)
+                    .map_or(boolean_specialization::SemiringType::Counting, |a| {
+                        a.semiring
+                    });
+                codegen.set_semiring_type(semiring);
+                self.load_inputs_into_codegen(&mut codegen, &accumulated_results);
 
-            last_result.clone_from(&result);
+                let is_recursive = recursive_info.get(i).is_some_and(Option::is_some);
 
-            // Store results for subsequent rules
-            if !head_name.is_empty() {
-                accumulated_results.insert(head_name.clone(), result);
+                // Use unoptimized IR for recursive nodes, optimized for others
+                let (exec_result, rule_us) = collector.time(|| {
+                    if let Some(Some(recursive_rel)) = recursive_info.get(i) {
+                        codegen.execute_recursive(&unoptimized_ir_nodes[i], recursive_rel)
+                    } else if self.num_workers > 1 {
+                        // Use parallel execution when configured for multi-worker
+                        let config =
+                            code_generator::ExecutionConfig::with_workers(self.num_workers);
+                        codegen.execute_with_config(&self.ir_nodes[i], config)
+                    } else {
+                        codegen.execute(&self.ir_nodes[i])
+                    }
+                });
+                let result = exec_result?;
+
+                last_result.clone_from(&result);
+
+                // Store results for subsequent rules
+                if !head_name.is_empty() {
+                    if mutual_recursion {
+                        let same = accumulated_results.get(&head_name).is_some_and(|old| {
+                            old.len() == result.len() && {
+                                let old_rows: std::collections::HashSet<&Tuple> =
+                                    old.iter().collect();
+                                result.iter().all(|t| old_rows.contains(t))
+                            }
+                        });
+                        changed |= !same;
+                    }
+                    accumulated_results.insert(head_name.clone(), result);
+                }
+
+                collector.record_rule(head_name.clone(), rule_us, is_recursive, self.num_workers);
+
+                let rule_ms = rule_us / 1000;
+                info!(
+                    source_len,
+                    rule_idx = i,
+                    rule_head = %head_name,
+                    rule_ms,
+                    recursive = is_recursive,
+                    workers = self.num_workers,
+                    "engine_rule_complete"
+                );
             }
-
-            collector.record_rule(head_name.clone(), rule_us, is_recursive, self.num_workers);
-
-            let rule_ms = rule_us / 1000;
-            info!(
-                source_len,
-                rule_idx = i,
-                rule_head = %head_name,
-                rule_ms,
-                recursive = is_recursive,
-                workers = self.num_workers,
-                "engine_rule_complete"
-            );
+            if !(mutual_recursion && changed) {
+                break;
+            }
+            // Every changing pass of a stratified program adds at least one row to a
+            // group that has not settled; more passes than rows means no fixpoint
+            // (a cycle through negation that slipped past stratification).
+            passes += 1;
+            let rows: usize = accumulated_results.values().map(Vec::len).sum();
+            if passes > rows + rule_heads.len() + 2 {
+                return Err("Mutually recursive rules did not reach a fixpoint".to_string());
+            }
         }
 
         info!(
